@@ -21,6 +21,8 @@
 #include <mutex>
 #include <thread>
 
+#include <unistd.h>
+
 using namespace QtLogger;
 using namespace verif;
 
@@ -71,6 +73,9 @@ QJsonObject generate()
     c["burst"] = chance(50);
     // every echoEvery-th message makes the sink log a follow-up message from the logger thread itself (0 = never)
     c["echoEvery"] = chance(40) ? pick(1, 5) : 0;
+    // where the source-location strings live: fresh heap blocks freed after the call, or one scratch buffer per producer that is
+    // overwritten with the next message's strings (same address, different content - what a scripting bridge does)
+    c["scratch"] = chance(50);
     QJsonArray msgs;
     const int n = 1 + sized(0, 60);
     StrOpts so;
@@ -98,8 +103,36 @@ QJsonObject generate()
 
 std::string showBytes(const QByteArray &b, bool isNull) { return isNull ? "<null>" : "'" + b.toStdString() + "'"; }
 
+// a case that does not finish is a failure of the property (a log call or the stop blocks for ever), not a harness problem:
+// the watchdog records the running case and ends the process with the "falsified" status
+std::atomic<long long> g_caseDeadlineMs { 0 };
+void startWatchdog()
+{
+    static bool started = false;
+    if (started) return;
+    started = true;
+    std::thread([] {
+        for (;;) {
+            std::this_thread::sleep_for(std::chrono::milliseconds(500));
+            const long long d = g_caseDeadlineMs.load();
+            if (d > 0 && std::chrono::duration_cast<std::chrono::milliseconds>(std::chrono::steady_clock::now().time_since_epoch()).count() > d) {
+                failCase(currentCase(), "the case did not finish within 90 s: a log call, the worker or the stop of the logger thread blocks for ever (e.g. a log call made by a sink on the logger thread deadlocks)");
+                dumpStats(false);
+                fprintf(stderr, "WATCHDOG: case did not finish\n");
+                _exit(1);
+            }
+        }
+    }).detach();
+}
+struct CaseTimer
+{
+    CaseTimer() { startWatchdog(); g_caseDeadlineMs = std::chrono::duration_cast<std::chrono::milliseconds>(std::chrono::steady_clock::now().time_since_epoch()).count() + 90000; }
+    ~CaseTimer() { g_caseDeadlineMs = 0; }
+};
+
 std::string run(const QJsonObject &c)
 {
+    CaseTimer caseTimer;
     const bool bare = c["subject"].toString() != "logger";
     const int P = c["producers"].toInt();
     const bool gate = c["gate"].toBool();
@@ -211,7 +244,10 @@ std::string run(const QJsonObject &c)
     for (int i = 0; i < n; i++) perProducer[size_t(jm[i].toObject()["p"].toInt())].push_back(i);
     std::atomic<bool> go { false };
     const bool burst = c["burst"].toBool();
+    const bool scratch = c["scratch"].toBool();
+    cls("reused_scratch_buffers", scratch && bare);
     auto producer = [&](int p) {
+        std::vector<char> sbFile(64), sbFunc(64), sbCat(64);
         producerIds[size_t(p)] = std::this_thread::get_id();
         producerQThreads[size_t(p)] = QThread::currentThread();
         while (!go) std::this_thread::yield();
@@ -225,9 +261,16 @@ std::string run(const QJsonObject &c)
             if (!burst) std::this_thread::yield();
             if (bare) {
                 // heap buffers that die right after the call
-                char *f = t.fileNull ? nullptr : strdup(t.file.constData());
-                char *fn = t.funcNull ? nullptr : strdup(t.func.constData());
-                char *ca = t.catNull ? nullptr : strdup(t.cat.constData());
+                auto place = [&](std::vector<char> &buf, const QByteArray &v, bool isNull) -> char * {
+                    if (isNull) return nullptr;
+                    if (!scratch) return strdup(v.constData());
+                    memset(buf.data(), 0, buf.size());
+                    memcpy(buf.data(), v.constData(), size_t(qMin(v.size(), int(buf.size()) - 1)));
+                    return buf.data();
+                };
+                char *f = place(sbFile, t.file, t.fileNull);
+                char *fn = place(sbFunc, t.func, t.funcNull);
+                char *ca = place(sbCat, t.cat, t.catNull);
                 {
                     QMessageLogContext ctx(f, t.line, fn, ca);
                     LogMessage m(kTypes[t.type], ctx, t.text);
@@ -237,9 +280,9 @@ std::string run(const QJsonObject &c)
                     outer.process(m);
                     t.ticketEnd = ticket++;
                 }
-                if (f) { memset(f, 'X', strlen(f)); free(f); }
-                if (fn) { memset(fn, 'X', strlen(fn)); free(fn); }
-                if (ca) { memset(ca, 'X', strlen(ca)); free(ca); }
+                if (f) { memset(f, 'X', strlen(f)); if (!scratch) free(f); }
+                if (fn) { memset(fn, 'X', strlen(fn)); if (!scratch) free(fn); }
+                if (ca) { memset(ca, 'X', strlen(ca)); if (!scratch) free(ca); }
             } else {
                 { QMessageLogContext ctx; LogMessage probe(QtDebugMsg, ctx, QString()); t.threadId = probe.threadId(); }
                 const QByteArray utf8 = (t.text + QStringLiteral("#id%1").arg(i)).toUtf8();
